@@ -92,6 +92,27 @@ def run(ck):
             ck.violation(f'{kn} (p={p}, q={q}): categorical fast path gives {Kf[a, b]!r}, dense evaluation on the one-hot rows gives {Kd[a, b]!r} (max dev {dev:.3g}) on {desc}',
                          dict(desc, x=X[a].tolist(), z=Z[b].tolist(), mat=None if mat is None else np.asarray(mat).tolist(), fast=float(Kf[a, b]), dense=float(Kd[a, b])),
                          key=json.dumps(dict(site='fast-vs-dense', kernel=kn, p=p, q=q)))
+        # one query row (or a few that agree on a group) against centres that all share ANOTHER level of that group — the rows of a leaf below a split on
+        # that feature: the group is constant on either side of the call, and the two constants differ
+        g0 = i % ng
+        la = int(rng.integers(0, levels[g0])); lb = (la + 1 + int(rng.integers(0, levels[g0] - 1))) % levels[g0]
+        Xc, Zc = rows([1, 2, 3][i % 3]), rows(4)
+        for R_, lev in ((Xc, la), (Zc, lb)):
+            R_[:, cat_idx[g0]] = np.eye(levels[g0])[lev]
+        try:
+            with xr.quiet():
+                Kdc = dense.get_kernel_matrix(T(Xc), T(Zc), mt).double().numpy()
+                Kfc = fast.get_kernel_matrix(T(Xc), T(Zc), mt).double().numpy()
+            ck.count('group constant on both sides at different levels')
+            dvc = float(np.max(np.abs(Kdc - Kfc)))
+            if dvc > 1e-9:
+                a, b = np.unravel_index(np.argmax(np.abs(Kdc - Kfc)), Kdc.shape)
+                ck.violation(f'{kn} (p={p}, q={q}): {len(Xc)} query row(s) at level {la} of group {g0} against centres that all sit at level {lb}: fast path gives {Kfc[a, b]!r}, '
+                             f'dense evaluation gives {Kdc[a, b]!r} (max dev {dvc:.3g}) on {desc}',
+                             dict(desc, x=Xc[a].tolist(), z=Zc[b].tolist(), mat=None if mat is None else np.asarray(mat).tolist(), fast=float(Kfc[a, b]), dense=float(Kdc[a, b])),
+                             key=json.dumps(dict(site='fast-vs-dense-constant-group', kernel=kn)))
+        except Exception as e:
+            ck.violation(f'categorical path raised {e!r} on rows with a constant group on {desc}', dict(desc, error=repr(e)), key=json.dumps(dict(site='raise', kernel=kn)))
         # the SAME configured kernel object evaluated again on other rows that live at the same address: a numpy staging buffer refilled in
         # place and wrapped again (same data pointer, same version counter, same shape), then a torch in-place update — the fast path must
         # follow the contents, not the storage
